@@ -522,7 +522,7 @@ func (r *rig) readWhole(d virtual.Directory, name string, size int) (string, str
 		return "", statusCode(s)
 	}
 	defer leaf.VirtualClose(virtual.ShareMaskRead)
-	buf := make([]byte, size+3)
+	buf := staleBuffer(size + 3)
 	n, eof, s := leaf.VirtualRead(r.w.ctx, buf, 0)
 	if s != virtual.StatusOK {
 		return "", statusCode(s)
